@@ -103,7 +103,7 @@ func (b *vfc14Counting) GetRange(ctx context.Context, name string, off, length i
 type vfc14Fault struct {
 	Class string `json:"class"` // Get, GetRange, Exists, Attributes, Iter
 	K     int    `json:"kth_call"`
-	Kind  string `json:"kind"`              // error, ctx-canceled, ctx-deadline, read-fails (Get/GetRange: reader fails after N good bytes), iter-fails (after N entries)
+	Kind  string `json:"kind"`            // error, ctx-canceled, ctx-deadline, read-fails (Get/GetRange: reader fails after N good bytes), iter-fails (after N entries)
 	N     int    `json:"after,omitempty"` // bytes / entries delivered before the failure
 }
 
@@ -495,7 +495,7 @@ func (e *vfc14Env) do(op vfc14Op) {
 			fp += ":after-transient-fault"
 			what += fmt.Sprintf(" [%d transient failure(s) of the wrapped bucket were injected earlier in this history; objects never changed]", f0)
 		}
-		viol(fp, what, w)
+		e.r.Violation(e.c, fp, what, w)
 	}
 	if f0 > 0 {
 		e.r.Count("operations_compared_after_a_fault", 1)
